@@ -101,6 +101,9 @@ pub struct Out {
     case_start: usize,
     pub cases: u64,
     pub distinct: std::collections::HashSet<u64>,
+    /// ops of this stream do not depend on earlier ops: a violation replays as the single op
+    pub stateless: bool,
+    current_op: Option<String>,
 }
 pub struct Violation {
     pub property: String,
@@ -121,6 +124,8 @@ impl Out {
             case_start: 0,
             cases: 0,
             distinct: Default::default(),
+            stateless: false,
+            current_op: None,
         }
     }
     /// Start a new case (a self-contained op sequence; the model state is reset by the driver).
@@ -139,7 +144,9 @@ impl Out {
     }
     /// Execute one op line on the implementation through the stream's interpreter and record it.
     pub fn run<S: Stream + ?Sized>(&mut self, s: &mut S, op: String) -> String {
+        self.current_op = Some(op.clone());
         let r = s.exec(&op, self);
+        self.current_op = None;
         self.op(op, r.clone());
         r
     }
@@ -167,7 +174,13 @@ impl Out {
     /// `key` identifies the finding (for known_findings.json matching).
     pub fn violation(&mut self, property: &str, key: &str, what: String) {
         if self.violations.len() < 50 {
-            let replay = self.case_lines();
+            let mut replay = self.case_lines();
+            if let Some(op) = &self.current_op {
+                if self.stateless {
+                    replay.truncate(1);
+                }
+                replay.push(op.clone());
+            }
             self.violations.push(Violation {
                 property: property.to_string(),
                 what,
